@@ -17,7 +17,10 @@ THEOREMS = {
             ("local_iff_5321", "local_iff_822", "local_iff_5322", "no_high_byte", "no_leading_dot")] +
            [("Eav.Lemmas.LocalGrammar", "Eav.Spec.specLocal_iff"), ("Eav.Lemmas.LocalScan", "Eav.is5321Local_iff"),
             ("Eav.Lemmas.LocalScan", "Eav.is822Local_iff"), ("Eav.Lemmas.LocalScan", "Eav.is5322Local_iff")],
-    "C03": _gt("errEnum_eq", "specials_eq", "buildOpts_eq"),
+    "C03": _gt("errEnum_eq", "specials_eq", "buildOpts_eq") + [("Eav.Props.C03", "Eav.Props.C03." + n) for n in
+            ("utf8_iff", "local6531_iff", "invalid_utf8_rejected", "ascii_agrees_5321", "nonascii_between_dots")] +
+           [("Eav.Lemmas.Utf8", "Eav.decodeNext_sound"), ("Eav.Lemmas.Utf8", "Eav.decodeNext_complete"), ("Eav.Lemmas.Utf8", "Eav.decAll_iff"),
+            ("Eav.Lemmas.Local6531", "Eav.is6531Local_iff"), ("Eav.Lemmas.LocalGrammar", "Eav.Spec.specLocal_iff")],
     "C04": _gt("errEnum_eq", "limits_eq", "buildOpts_eq") + [("Eav.Props.C04", "Eav.Props.C04." + n) for n in
             ("host_iff", "isAsciiDomain_iff_spec", "specHost_iff", "host6531_sound", "isAsciiDomain_nonpos")] + [("Eav.Lemmas.Domain", "Eav.domLoop_ok")],
     "C05": _gt("errEnum_eq"),
